@@ -1,5 +1,6 @@
 import TxV.Model.CoreProto
 import TxV.Core.Bridge
+import TxV.Core.BridgeEagerFold
 /-!
 Line protocol of the core (transaction manager) model.
 
@@ -10,7 +11,7 @@ Line protocol of the core (transaction manager) model.
         "calls":[{"c":callee,"m":uid,"p":[[alt,par]…],"s":site}],
         "rels":[{"d":dst,"p":"U|L|R","c":0|1,"rd":0|1,"sl":0|1}]}`
   answer: `reject kind=<Reject>` or
-  `ok mbt=<t:m,m;…> tbm=<m:t,t;…> cgr=<a-b,…> ccs=<a,b|c> vo=<validOrder of porder> hyp=<Bridge.staticOk>`
+  `ok mbt=<t:m,m;…> tbm=<m:t,t;…> cgr=<a-b,…> ccs=<a,b|c> vo=<validOrder of porder> hyp=<Bridge.staticOk> rdl=<Bridge.readyDepLeftOk>`
 * valuation line `v r=<bit per body> e=<bit per site> a=<arg per site> l=<local per body>`
   answer: `rn=<runnable per transaction> run=<run per body> act=<active per site>
            din=<data_in per method> dout=<data_out per method> res=<result per site> hx=<exclHolds> cons=<consistentEager> hyp=<Bridge.cycleOk>`
@@ -21,4 +22,4 @@ Line protocol of the core (transaction manager) model.
 
 def main : IO Unit :=
   TxV.Proto.run (none : Option TxV.CoreProto.St)
-    (TxV.CoreProto.stepLine TxV.Core.Bridge.staticOk TxV.Core.Bridge.cycleOk)
+    (TxV.CoreProto.stepLine TxV.Core.Bridge.staticOk TxV.Core.Bridge.readyDepLeftOk TxV.Core.Bridge.cycleOk)
